@@ -1064,6 +1064,7 @@ func main() {
 	run.Assume("reference digests = verif/ref/refsighash (500 Core vectors, tx_valid.json digests and signatures, BIP341 wallet vectors, hand-derived BIP342 layouts)")
 	run.Assume("unparsable script-code tails are hashed as Core's CTransactionSignatureSerializer does (declared length = full length, body ends where the failed GetOp left the iterator); no Core vector covers this, it is derived from interpreter.cpp")
 	run.Assume("signatures are made by verif/ref/refec (independent of gocoin); zero-padded DER integers are taken to be accepted by Bitcoin's pre-BIP66 lax parser")
+	os.RemoveAll(tmp) // Finish exits the process: deferred calls do not run
 	run.Finish("each case = one digest request (Tx.SignatureHash / WitnessSigHash / TaprootSigHash) compared with the cache-free reference, alone or inside a 50-request schedule on one Tx object (sequential, and 8 goroutines under -race), plus end-to-end spends through VerifyTxScript; distinct_nontrivial = distinct reference digests",
 		"digests", "reference_digests", run.N(10000, 1000000))
 }
